@@ -5,8 +5,72 @@ from vlib.py2coq import Untranslatable
 from vlib.translate import HEADER, find_class, find_func, gtext, parse
 
 
+_PREC = {"or_composition": (0, "O"), "xor_composition": (1, "X"), "and_composition": (2, "U"), "then_also_composition": (3, "")}
+
+
+def _print_tree(t, level=0):
+    """a text that parses back to the lark tree t: brackets only where the documented precedence needs them (an operand that binds
+    no tighter than its parent is bracketed, so the tree is determined)"""
+    from lark import Token, Tree
+
+    if not isinstance(t, Tree):
+        raise Untranslatable(f"unexpected node {t!r}")
+    kids = t.children
+    if t.data in ("condition", "time_condition") and len(kids) == 1 and isinstance(kids[0], Token):
+        return f"[{kids[0]}]"
+    if t.data == "package" and kids and all(isinstance(k, Token) for k in kids):
+        return "[" + " ".join(str(k) for k in kids) + "]"
+    if t.data not in _PREC or len(kids) != 2:
+        raise Untranslatable(f"unexpected tree {t.data}")
+    prec, op = _PREC[t.data]
+    text = _print_tree(kids[0], prec + 1) + op + _print_tree(kids[1], prec + 1)
+    return "(" + text + ")" if prec < level else text
+
+
+def _entries_by_execution(why):
+    """fallback when the source is outside the syntactic subset: run the loaded callback on every time condition key the grammar can produce
+    (a finite set) and read the table off the results"""
+    from lark import Token, Tree
+
+    from vlib import impl  # noqa: F401
+    from vlib.translate import TABULATED, _load_parsers
+    import ahbicht.content_evaluation  # noqa: F401  (import order: avoids the circular import of the expressions package)
+    from ahbicht.expressions.expression_resolver import TimeConditionTransformer
+
+    cp, _ = _load_parsers()
+    entries = []
+    for n in range(0, 10):
+        key = f"UB{n}"
+        try:
+            cp.parse(f"[{key}]")
+        except Exception:  # pylint: disable=broad-except
+            continue   # not a time condition key of the grammar
+        try:
+            r = TimeConditionTransformer().time_condition([Token("TIME_CONDITION_KEY", key)])
+        except NotImplementedError:
+            continue
+        if isinstance(r, Tree) and r.data == "condition" and len(r.children) == 1 and isinstance(r.children[0], Token) and r.children[0].type == "CONDITION_KEY":
+            entries.append((key, "key", str(r.children[0])))
+        else:
+            src = _print_tree(r)
+            if cp.parse(src) != r:
+                raise Untranslatable(f"time_condition({key}): the result cannot be written back as an expression")
+            entries.append((key, "expr", src))
+    TABULATED.append(("time_condition_expansion", why))
+    return entries
+
+
 def generate():
+    try:
+        return _generate(None)
+    except Untranslatable as why:
+        return _generate(_entries_by_execution(str(why)))
+
+
+def _generate(forced_entries):
     mod, path = parse("expressions/expression_resolver.py")
+    if forced_entries is not None:
+        return _emit(path, forced_entries, tabulated=True)
     fn = find_func(find_class(mod, "TimeConditionTransformer"), "time_condition")
     body = [s for s in fn.body if not (isinstance(s, ast.Expr) and isinstance(s.value, ast.Constant))]
     if not (isinstance(body[0], ast.Assign) and isinstance(body[0].targets[0], ast.Name)):
@@ -41,12 +105,19 @@ def generate():
             entries.append((key, "expr", r.args[0].value))
         else:
             raise Untranslatable(f"time_condition: unexpected return {ast.dump(r)[:200]}")
+    return _emit(path, entries, tabulated=False)
+
+
+def _emit(path, entries, tabulated):
     # trees of the expression-valued expansions, parsed by ahbicht itself at generation time
     from vlib import strings
     from vlib.translate import _load_parsers
 
     cp, _ = _load_parsers()
     out = [HEADER.format(src=path), "From Ahb Require Import Model.Grammar Gen.Gen_grammar Model.Lex.\n"]
+    if tabulated:
+        out.append("(* time_condition is outside the syntactic subset: the table below was read off the loaded callback, executed on every time\n"
+                   "   condition key of the grammar; expression-valued expansions are written back as text with the brackets the precedence needs *)")
     out.append("Inductive tc_expansion := TcKey (k : text) | TcExpr (src : text) (tree : expr).")
     rows = []
     for key, kind, val in entries:
